@@ -413,9 +413,84 @@ func c04seqBig(c *core.Ctx) {
 	}
 }
 
+// c04seqSweep: ALL sequences of up to 6 calls that start with call number `first` of an
+// 8-call alphabet over two keys (Load/Store/LoadOrStore/delete of k0, Load/Store/delete
+// of k1, Range; the deletes alternate between Delete and LoadAndDelete by position) on
+// a fresh Map, each call judged against a plain map: every path of the read-map /
+// dirty-map / expunged state machine that two keys and six calls can reach, exhaustively.
+func c04seqSweep(c *core.Ctx, first int) {
+	hooksOff()
+	const nOps = 8
+	seqs := 0
+	val := int64(0)
+	for L := 1; L <= 6; L++ {
+		total := 1
+		for i := 1; i < L; i++ {
+			total *= nOps
+		}
+		for code := 0; code < total; code++ {
+			var im sync2.Map[int, int64]
+			var m kvMap = &im
+			model := map[int]int64{}
+			var hist []rec
+			for x, k := code, 0; k < L; k++ {
+				op := first
+				if k > 0 {
+					op = x % nOps
+					x /= nOps
+				}
+				val++
+				var o rec
+				switch op {
+				case 0:
+					o = rec{Op: opLoad, Key: 0}
+				case 1:
+					o = rec{Op: opStore, Key: 0, Arg: val}
+				case 2:
+					o = rec{Op: opLoadOrStore, Key: 0, Arg: val}
+				case 3:
+					o = rec{Op: []int{opDelete, opLoadAndDelete}[k%2], Key: 0}
+				case 4:
+					o = rec{Op: opLoad, Key: 1}
+				case 5:
+					o = rec{Op: opStore, Key: 1, Arg: val}
+				case 6:
+					o = rec{Op: []int{opLoadAndDelete, opDelete}[k%2], Key: 1}
+				case 7:
+					o = rec{Op: opRange}
+				}
+				sig, msg := seqStep(m, model, &o)
+				hist = append(hist, o)
+				if sig != "" {
+					c.Violate("seq:sweep:"+sig, msg+" [exhaustive sweep from a fresh Map]", map[string]any{"history": histStrings(hist, 10)})
+					return
+				}
+			}
+			for k := 0; k < 2; k++ {
+				v, ok := m.Load(k)
+				if mv, mok := model[k]; ok != mok || v != mv {
+					c.Violate("seq:sweep:final-Load", fmt.Sprintf("final Load(k%d)=(%d,%v), a map[K]V holds (%d,%v) [exhaustive sweep from a fresh Map]", k, v, ok, mv, mok), map[string]any{"history": histStrings(hist, 10)})
+					return
+				}
+			}
+			seqs++
+		}
+	}
+	c.Count("seq_exhaustive_sweep_sequences", int64(seqs))
+	c.Count("exhaustive_sweeps_completed", 1)
+	c.NonTrivial(core.Mix(4, uint64(first), 0x5eeb))
+	if c.WantSample() {
+		c.Sample(map[string]any{"mode": "seq/sweep", "first_call": first, "sequences_enumerated": seqs, "what": "all call sequences of length <= 6 over 8 calls on 2 keys from a fresh Map"})
+	}
+}
+
 func c04seq(c *core.Ctx) {
 	r := c.R
 	hooksOff()
+	if c.Index < 8 {
+		c04seqSweep(c, int(c.Index))
+		return
+	}
 	if c.Index%40 == 17 {
 		c04seqBig(c)
 		return
@@ -856,11 +931,36 @@ func c04race(c *core.Ctx) {
 			}
 		}()
 	}
+	// in a third of the rounds one more goroutine uses a SECOND map that is entirely its
+	// own, sequentially, against a plain-map model: two Map values must not share anything
+	privateBad := ""
+	if r.Chance(1, 3) {
+		pr := r.Fork()
+		wg.Add(1)
+		go func() {
+			defer wg.Done()
+			var pm sync2.Map[int, int64]
+			model := map[int]int64{}
+			g := &mapOpGen{r: pr, client: 99, keys: []int{0, 1, 2}, rangeW: 2}
+			<-start
+			for i := 0; i < 4*nops && privateBad == ""; i++ {
+				o := g.next()
+				if sig, msg := seqStep(&pm, model, &o); sig != "" {
+					privateBad = sig + ": " + msg
+				}
+			}
+		}()
+		c.Count("race_rounds_with_a_private_second_map", 1)
+	}
 	close(start)
 	if !joinOrDeadlock(c, &wg, "race", "a round of concurrent map calls", map[string]any{"goroutines": ng, "ops_each": nops, "hook_policy": policy}) {
 		return
 	}
 	hooksOff()
+	if privateBad != "" {
+		c.Violate("race:private-second-map", "a second Map used by one goroutine only, next to the shared one, misbehaved: "+privateBad, nil)
+		return
+	}
 	c.Count("race_rounds", 1)
 	c.Count("race_policy_"+policy, 1)
 	c.Count("race_goroutines", int64(ng))
